@@ -65,9 +65,13 @@ def diag_match(impl_items, model_items):
     for it in impl_items:
         sev, title, desc, nrel, locs, _ = it
         hit = None
-        for k, m in enumerate(left):
-            if m[0] == sev and m[1] == title and (m[2] == "*" or m[2] == desc) and locs[0] in m[4]:
-                hit = k
+        # prefer model items the implementation MUST report, then the optional (hash-order dependent) ones
+        for want_optional in (False, True):
+            for k, m in enumerate(left):
+                if m[5] == want_optional and m[0] == sev and m[1] == title and (m[2] == "*" or m[2] == desc) and locs[0] in m[4]:
+                    hit = k
+                    break
+            if hit is not None:
                 break
         if hit is None:
             return "implementation item without model counterpart: %s %r @%s" % (sev, title, locs[0])
